@@ -31,8 +31,21 @@ EXTRA = ("do NOT use numerical-tolerance tricks (np.isclose/allclose/round), do 
          "group labels that are not 0/1 or not sorted, strata given in non-sorted order); the smallest admissible sizes (reps=1, one stratum, one variable, groups of size 1, n=1, x=0 or x=n); "
          "aliasing (the returned array shares memory with an input or with another returned array, an input is modified in place); default arguments that differ from the explicit value; "
          "a comparison operator that differs only when two quantities coincide (<= vs <, argmax vs last argmax, stable vs unstable sort); a loop bound that drops the last or first iteration only for a particular parity or size.")
+EXTRA_G = ("do NOT use numerical-tolerance tricks, dtype truncation/overflow, caches or state kept between calls, seed-dependent behaviour, non-finite (inf/NaN) special cases, "
+           "or very large sample sizes; earlier rounds already covered those. "
+           "Earlier rounds already produced these changes, so choose a different mechanism and, if possible, a different clause of the property: {prev}. "
+           "Ideas for this round: GLUE code rather than the numerical core -- how arguments are normalised (np.asarray / ravel / astype / sorting by a key), how defaults are filled in, "
+           "how results are packaged (order and type of returned values, a returned array that ALIASES an internal buffer or an input so that a later call or a caller's edit changes an earlier result, "
+           "a view returned instead of a copy); the INTERPLAY of options that are each fine alone (alternative x plus1 x keep_dist x stat name vs callable x reps small, max_correct/ method names, in_place x seed); "
+           "which exception TYPE is raised and for exactly which inputs (a guard that now also rejects a legitimate boundary input, or lets through one illegitimate class only); "
+           "handling of inputs given as column vectors / 2-D with one column / Python sequences / 0-length or length-1 inputs; duplicated or negative or non-consecutive group labels, labels of mixed magnitude; "
+           "an index that is off by one only in the LAST or FIRST stratum / hypothesis / row; iteration order over a dict or set of labels that silently replaces sorted order; "
+           "two cooperating edits in different functions that each preserve behaviour alone.")
 def main():
+    global EXTRA
     suffix = sys.argv[1]
+    if suffix >= "g":
+        EXTRA = EXTRA_G
     for pid in sys.argv[2:]:
         p = props[pid]; name = pid + suffix
         wt = f'/tmp/wt/{name}'; out = f'/tmp/mut/{name}'
